@@ -28,6 +28,30 @@ class StandIn:
         self.t0 = time.time()
         import soundevent
         self.repo_file = soundevent.__file__
+        self._install_excepthook()
+
+    def _install_excepthook(self):
+        """An exception that escapes from the LIBRARY's code (innermost frame under the repository's src) through a call
+        this stand-in did not expect to raise is a finding about the tree, not a crash of the check: it is recorded as a
+        failure and the run ends normally.  Exceptions raised by the stand-in's own code still crash (checker error)."""
+        src_root = os.path.dirname(os.path.dirname(os.path.abspath(self.repo_file)))
+        prev = sys.excepthook
+
+        def hook(tp, val, tb):
+            frames = []
+            t = tb
+            while t is not None:
+                frames.append(t.tb_frame.f_code.co_filename)
+                t = t.tb_next
+            lib = [f for f in frames if os.path.abspath(f).startswith(src_root)]
+            if not lib or isinstance(val, (KeyboardInterrupt, SystemExit, MemoryError)):
+                return prev(tp, val, tb)
+            where = os.path.relpath(lib[-1], src_root)
+            self.fail(f"uncaught:{tp.__name__}:{where}", f"the library raised {tp.__name__}: {str(val)[:300]} (innermost library frame: {where}) "
+                      "in a call that this stand-in expects to succeed")
+            self.finish("aborted by an exception escaping from the library; cases up to that point are counted")
+            os._exit(0)
+        sys.excepthook = hook
 
     def case(self, key, nontrivial_key=None, sample=None):
         self.evaluations += 1
